@@ -243,12 +243,12 @@ private theorem shape_all (cx : Ctx) : ∀ f,
     left one contains no un-parenthesised `or` (so these bind tighter than `or`/`|`/`+` and
     associate to the left among themselves); the right operand of `or`/`|`/`+` contains no
     un-parenthesised `or` (left associativity); anything else needs parentheses. -/
-theorem parse_shape (input : List Char) (rv gv : List (List Char × Bool)) (e : PExpr) (st : St)
-    (h : parseTop (mkCtx input rv gv) input = (some e, st)) : IsOr e := by
+theorem parse_shape (input : List Char) (rv gv : List (List Char × Bool)) (re : List (List Char × Nat × Nat)) (e : PExpr) (st : St)
+    (h : parseTop (mkCtx input rv gv re) input = (some e, st)) : IsOr e := by
   unfold parseTop at h
   simp only at h
-  have key := (shape_all (mkCtx input rv gv) (fuelFor input)).1
-  generalize hp : parseExpr (mkCtx input rv gv) (fuelFor input) { rest := input, errs := [], needs := [] } = r at h
+  have key := (shape_all (mkCtx input rv gv re) (fuelFor input)).1
+  generalize hp : parseExpr (mkCtx input rv gv re) (fuelFor input) { rest := input, errs := [], needs := [] } = r at h
   obtain ⟨e1, st1⟩ := r
   split at h
   · simp at h; obtain ⟨rfl, _⟩ := h; exact key _ _ _ hp
